@@ -51,6 +51,16 @@ CHECKS = {
    text="Exhaustive within the bound: all strings of length <=4 (quick, 16k) / <=6 (thorough, 1.9M) over 8 bytes + 3 macro tags: implementation-shaped scanner = declarative segmentation in the model, and real output = declarative expectation byte for byte; all sequences of <=2 (quick) / <=3 (thorough) of 47 items (literal segments, string literals with tag delimiters / # / backslashes / newlines / quotes / multi-byte, silent tags of 8 kinds, comments) x 5 placements. The as-built scanner of the pinned commit is shown to violate Agree in the model (sensitivity).",
    note="Trusted: TLC, PlushSem.tla. Text that opens a tag from raw bytes is only checked for totality (its meaning depends on the tag's contents).",
    design="§6 C02"),
+ "C19": dict(
+   technique="TLC explicit-state model checking of the iterator machines Ranger.tla (W-bit wrap-around integers, liveness Terminates) and GroupBy.tla (partition invariants, liveness), every (kind,a,b)/(len,n) replayed on the real helpers (both groupBy implementations, direct and through template for loops)",
+   text="Exhaustive within the bound: range/between/until over ALL pairs of 4-bit (quick) / 5-bit (thorough) integers with the values next to the extremes mapped to math.MinInt/MaxInt; TLC checks PrefixOK, Exact and termination on the machine; real iterators compared with the declarative interval (first 40 values + exhaustion). groupBy for len 0..20 (quick) / 0..40 (thorough) x n -1..12: TLC checks Partition, YieldsAll, ErrorIffBadN, termination; real groups from both implementations over 7 container/element types must equal the model's. len() over 13 kinds.",
+   note="Trusted: TLC, mapping of W-bit extremes to int extremes. Interior values beyond the W-bit range are not explored.",
+   design="§6 C19"),
+ "C20": dict(
+   technique="TLC explicit-state model checking of the transcribed truncate algorithm over character classes (Truncate.tla, invariants Unchanged/PrefixTrail) with every case replayed on real text.Truncate; TLC-enumerated class strings and JSON values (StrGen.tla) for htmlEscape/jsEscape/raw/toJSON with the statement checked on the real results",
+   text="Exhaustive within the bound: truncate for all s of length <=4 (quick) / <=6 (thorough) over {ASCII, multi-byte, combining, invalid byte} x size in [-2, N+6] x trails of length 0..4 / 0..8 (22k / 740k cases): real result equals the model's and satisfies the statement (byte prefix at a character boundary + trail, bounded length). All strings of length <=3 / <=4 over 15 character classes for htmlEscape (no raw specials, every & an entity, decodes back), jsEscape (no raw < > & =, no unescaped quote or line break), raw (byte identity through a template). 555 JSON values: toJSON is valid JSON, decodes back to the value, has no raw < > &.",
+   note="Encode/decode fidelity is decided by Go's decoders on TLC-generated inputs, not by the model (stated limit of the technique, DESIGN §7). Strings longer than the bound and sizes up to 70 are not enumerated.",
+   design="§6 C20"),
 }
 
 NOT_YET = "check not built yet in this session (work in progress, see DESIGN.md §8)"
